@@ -25,6 +25,8 @@
 #include <algorithm>
 #include <memory>
 #include <sys/mman.h>
+#include <sys/wait.h>
+#include <unistd.h>
 #include <sys/uio.h>
 #include <sanitizer/asan_interface.h>
 #define private public
@@ -361,27 +363,59 @@ static std::string probe() {
     return r;
 }
 
+static std::string run_line(const std::string& line) {
+    auto tok = split(line, ' ');
+    Case c;
+    if (tok.size() < 6) return "BADCASE";
+    c.kind = tok[0]; c.cfg = tok[1]; c.type = tok[2]; c.shape = tok[3]; c.rf = atol(tok[4].c_str());
+    if (tok[5] != "~") for (auto& h : split(tok[5], ';')) c.regions.push_back(unhex(h));
+    if (c.kind == "D") {
+        if (tok.size() < 8) return "BADCASE";
+        if (tok[6] != "~") for (auto& e : split(tok[6], ',')) { auto p = split(e, ':'); c.iov.push_back({atol(p[0].c_str()), atol(p[1].c_str()), atol(p[2].c_str())}); }
+        c.ops = tok[7];
+    }
+    return dispatch(c);
+}
+
 int main(int argc, char** argv) {
     if (argc < 2) return 2;
     if (std::string(argv[1]) == "--shapes") { for (auto& p : shapes()) printf("%s %s\n", p.first.c_str(), p.second.c_str()); return 0; }
     if (std::string(argv[1]) == "--probe") { printf("%s\n", probe().c_str()); return 0; }
     arena_init();
     std::ifstream in(argv[1]); std::string line;
-    while (std::getline(in, line)) {
-        if (line.empty() || line[0] == '#') continue;
-        auto tok = split(line, ' ');
-        Case c;
-        if (tok.size() < 6) { puts("BADCASE"); fflush(stdout); continue; }
-        c.kind = tok[0]; c.cfg = tok[1]; c.type = tok[2]; c.shape = tok[3]; c.rf = atol(tok[4].c_str());
-        if (tok[5] != "~") for (auto& h : split(tok[5], ';')) c.regions.push_back(unhex(h));
-        if (c.kind == "D") {
-            if (tok.size() < 8) { puts("BADCASE"); fflush(stdout); continue; }
-            if (tok[6] != "~") for (auto& e : split(tok[6], ',')) { auto p = split(e, ':'); c.iov.push_back({atol(p[0].c_str()), atol(p[1].c_str()), atol(p[2].c_str())}); }
-            c.ops = tok[7];
+    std::vector<std::string> lines;
+    while (std::getline(in, line)) if (!line.empty() && line[0] != '#') lines.push_back(line);
+    // Supervisor: the cases run in a forked worker; when the worker dies (sanitizer report, SEGV) the
+    // supervisor prints TRAP for the case it was running and forks a new worker for the rest.
+    size_t next = 0;
+    while (next < lines.size()) {
+        int pfd[2]; if (pipe(pfd) != 0) return 4;
+        fflush(stdout);
+        pid_t pid = fork();
+        if (pid < 0) return 4;
+        if (pid == 0) {
+            close(pfd[0]);
+            for (size_t i = next; i < lines.size(); i++) {
+                uint32_t idx = (uint32_t)i;
+                if (write(pfd[1], &idx, sizeof idx) != (ssize_t)sizeof idx) _exit(5);
+                alarm(60);
+                std::string out = run_line(lines[i]);
+                arena_reset();
+                puts(out.c_str()); fflush(stdout);
+            }
+            uint32_t done = 0xffffffffu;
+            if (write(pfd[1], &done, sizeof done) != (ssize_t)sizeof done) _exit(5);
+            _exit(0);
         }
-        std::string out = dispatch(c);
-        arena_reset();
-        puts(out.c_str()); fflush(stdout);
+        close(pfd[1]);
+        uint32_t last = 0xfffffffeu, v;
+        while (read(pfd[0], &v, sizeof v) == (ssize_t)sizeof v) last = v;
+        close(pfd[0]);
+        int status = 0; waitpid(pid, &status, 0);
+        if (last == 0xffffffffu) break;
+        if (last == 0xfffffffeu) return 6;            // worker died before starting a case
+        puts("TRAP"); fflush(stdout);
+        next = (size_t)last + 1;
     }
     return 0;
 }
